@@ -86,6 +86,11 @@ func (s *Session) wait() {
 			s.tick.Reset(w) // Repurpose sleep timer for wait timer.
 			select {
 			case <-s.wake:
+				// NOTE: A wake up by 'Close' must not go back to waiting for the
+				//       WorkHours to start, the Session has to shut down now.
+				if s.state.Closing() {
+					return
+				}
 			case <-s.tick.C:
 			case <-s.ctx.Done():
 				s.state.Set(stateClosing)
